@@ -149,7 +149,8 @@ fn gen_case(ch: &mut Choices) -> FrameCase {
     for _ in 0..ncie {
         let version = if eh { ch.pick(&[1u8, 1, 3]) } else { ch.pick(&[1u8, 3, 4]) };
         let mut aug: Vec<u8> = Vec::new();
-        if eh && ch.chance(200) {
+        // (.debug_frame entries may carry the same augmentation; there only with absolute pointers)
+        if (eh && ch.chance(200)) || (!eh && ch.chance(70)) {
             aug.push(b'z');
             // a subset of L, P, R, S in a generated order
             let mut letters: Vec<u8> = Vec::new();
@@ -162,9 +163,12 @@ fn gen_case(ch: &mut Choices) -> FrameCase {
             letters.rotate_left(rot);
             aug.extend(letters);
         }
-        let fde_enc = gen_enc(ch, true);
-        let lsda_enc = gen_enc(ch, false);
-        let pers_enc = gen_enc(ch, true);
+        let (mut fde_enc, mut lsda_enc, mut pers_enc) = (gen_enc(ch, true), gen_enc(ch, false), gen_enc(ch, true));
+        if !eh {
+            fde_enc &= 0x0f;
+            lsda_enc &= 0x0f;
+            pers_enc &= 0x0f;
+        }
         cies.push(CieSpec {
             version,
             format64: ch.chance(50),
